@@ -85,6 +85,24 @@ where
     }
 }
 
+/// with serialisation support enabled the quantity and its unit type must be (de)serialisable
+#[cfg(feature = "serde")]
+fn serde_corpus<Q>(tag: &str)
+where
+    Q: Quantity + serde::Serialize + for<'de> serde::Deserialize<'de>,
+    Q::UnitType: serde::Serialize + for<'de> serde::Deserialize<'de> + Debug,
+{
+    for u in Q::iter_units() {
+        let q = Q::new(Amnt!(2.5), u);
+        let text = serde_json::to_string(&q).unwrap_or_else(|e| format!("error {e}"));
+        let back: Result<Q, _> = serde_json::from_str(&text);
+        println!("{tag}+serde|{:?}|{}|{}|{}", u, text, serde_json::to_string(&u).unwrap_or_default(),
+                 back.map(|b| format!("{:?} {}", b.unit(), b.amount() == q.amount())).unwrap_or_else(|e| format!("error {e}")));
+    }
+}
+#[cfg(not(feature = "serde"))]
+fn serde_corpus<Q>(_tag: &str) {}
+
 fn section<F: FnOnce() + std::panic::UnwindSafe>(tag: &str, f: F) {
     if std::panic::catch_unwind(f).is_err() {
         println!("{tag}|PANIC");
@@ -99,18 +117,21 @@ fn main() {
     section("mass", || {
         use quantities::mass::*;
         corpus::<Mass>("mass");
+        serde_corpus::<Mass>("mass");
         println!("mass|const|{}|{}", Amnt!(1) * POUND, KILOGRAM.as_qty());
     });
     #[cfg(feature = "length")]
     section("length", || {
         use quantities::length::*;
         corpus::<Length>("length");
+        serde_corpus::<Length>("length");
         println!("length|const|{}|{}", Amnt!(12) * INCH, (Amnt!(1) * FOOT) == (Amnt!(12) * INCH));
     });
     #[cfg(feature = "duration")]
     section("duration", || {
         use quantities::duration::*;
         corpus::<Duration>("duration");
+        serde_corpus::<Duration>("duration");
         println!("duration|const|{}", Amnt!(90) * MINUTE);
     });
     #[cfg(feature = "area")]
@@ -122,6 +143,7 @@ fn main() {
         let back: Length = a / l;
         println!("area|derived|{}|{}|{}|{}", a, back, &l * &w, (Amnt!(2) * KILOMETER) * (Amnt!(3) * KILOMETER));
         corpus::<Area>("area");
+        serde_corpus::<Area>("area");
         dmul::<Length, Length, Area>("area", "LxL"); ddiv::<Area, Length, Length>("area", "A/L");
     });
     #[cfg(feature = "volume")]
@@ -135,6 +157,7 @@ fn main() {
         let ll: Length = v / a;
         println!("volume|derived|{}|{}|{}|{}", v, v2, la, ll);
         corpus::<Volume>("volume");
+        serde_corpus::<Volume>("volume");
         dmul::<Length, Area, Volume>("volume", "LxA"); dmul::<Area, Length, Volume>("volume", "AxL"); ddiv::<Volume, Length, Area>("volume", "V/L"); ddiv::<Volume, Area, Length>("volume", "V/A");
     });
     #[cfg(feature = "speed")]
@@ -148,6 +171,7 @@ fn main() {
         let t2: Duration = l / v;
         println!("speed|derived|{}|{}|{}|{}", v, d, d2, t2);
         corpus::<Speed>("speed");
+        serde_corpus::<Speed>("speed");
         ddiv::<Length, Duration, Speed>("speed", "L/D"); dmul::<Speed, Duration, Length>("speed", "SxD"); dmul::<Duration, Speed, Length>("speed", "DxS"); ddiv::<Length, Speed, Duration>("speed", "L/S");
     });
     #[cfg(feature = "acceleration")]
@@ -160,6 +184,7 @@ fn main() {
         let t2: Duration = v / a;
         println!("acceleration|derived|{}|{}|{}|{}", a, v2, t * a, t2);
         corpus::<Acceleration>("acceleration");
+        serde_corpus::<Acceleration>("acceleration");
         ddiv::<Speed, Duration, Acceleration>("acceleration", "S/D"); dmul::<Acceleration, Duration, Speed>("acceleration", "AxD"); ddiv::<Speed, Acceleration, Duration>("acceleration", "S/A");
     });
     #[cfg(feature = "force")]
@@ -173,6 +198,7 @@ fn main() {
         let a2: Acceleration = f / m;
         println!("force|derived|{}|{}|{}|{}", f, f2, m2, a2);
         corpus::<Force>("force");
+        serde_corpus::<Force>("force");
         dmul::<Mass, Acceleration, Force>("force", "MxA"); ddiv::<Force, Mass, Acceleration>("force", "F/M"); ddiv::<Force, Acceleration, Mass>("force", "F/A");
     });
     #[cfg(feature = "energy")]
@@ -186,6 +212,7 @@ fn main() {
         let l2: Length = e / f;
         println!("energy|derived|{}|{}|{}|{}", e, e2, f2, l2);
         corpus::<Energy>("energy");
+        serde_corpus::<Energy>("energy");
         dmul::<Force, Length, Energy>("energy", "FxL"); ddiv::<Energy, Force, Length>("energy", "E/F"); ddiv::<Energy, Length, Force>("energy", "E/L");
     });
     #[cfg(feature = "power")]
@@ -198,6 +225,7 @@ fn main() {
         let t2: Duration = e / p;
         println!("power|derived|{}|{}|{}|{}", p, e2, t * p, t2);
         corpus::<Power>("power");
+        serde_corpus::<Power>("power");
         ddiv::<Energy, Duration, Power>("power", "E/D"); dmul::<Power, Duration, Energy>("power", "PxD"); ddiv::<Energy, Power, Duration>("power", "E/P");
     });
     #[cfg(feature = "frequency")]
@@ -210,12 +238,14 @@ fn main() {
         let t2: Duration = Amnt!(2) / f;
         println!("frequency|derived|{}|{}|{}|{}", f, n, n2, t2);
         corpus::<Frequency>("frequency");
+        serde_corpus::<Frequency>("frequency");
         ddiv::<AmountT, Duration, Frequency>("frequency", "1/D"); dmul::<Frequency, Duration, AmountT>("frequency", "FxD"); ddiv::<AmountT, Frequency, Duration>("frequency", "1/F");
     });
     #[cfg(feature = "datavolume")]
     section("datavolume", || {
         use quantities::datavolume::*;
         corpus::<DataVolume>("datavolume");
+        serde_corpus::<DataVolume>("datavolume");
         println!("datavolume|const|{}", Amnt!(3) * MEBIBYTE);
     });
     #[cfg(feature = "datathroughput")]
@@ -228,6 +258,7 @@ fn main() {
         let t2: Duration = d / r;
         println!("datathroughput|derived|{}|{}|{}|{}", r, d2, t * r, t2);
         corpus::<DataThroughput>("datathroughput");
+        serde_corpus::<DataThroughput>("datathroughput");
         ddiv::<DataVolume, Duration, DataThroughput>("datathroughput", "V/D"); dmul::<DataThroughput, Duration, DataVolume>("datathroughput", "TxD"); ddiv::<DataVolume, DataThroughput, Duration>("datathroughput", "V/T");
     });
     #[cfg(feature = "temperature")]
@@ -239,6 +270,7 @@ fn main() {
             println!("temperature|unit|{:?}|{}|{}", u, u.name(), u.symbol());
             println!("temperature|conv|{:?}|{:?}", u, TEMPERATURE_CONVERTER.convert(&t, u).map(|x| format!("{}", x)));
         }
+        serde_corpus::<Temperature>("temperature");
         println!("temperature|ops|{}|{}|{}|{:?}", t + t, t - t, t / t, PartialOrd::partial_cmp(&t, &(Amnt!(70) * DEGREE_FAHRENHEIT)));
     });
     println!("done|end");
@@ -248,8 +280,9 @@ fn main() {
 
 def probe_cargo():
     lines = ['[package]', 'name = "featprobe"', 'version = "0.0.0"', 'edition = "2021"', 'publish = false', '', '[workspace]', '',
-             '[dependencies]', 'quantities = { path = "%s", default-features = false }' % REPO, '', '[features]', 'default = []',
-             'std = ["quantities/std"]', 'fpdec = ["quantities/fpdec"]', 'serde = ["quantities/serde"]']
+             '[dependencies]', 'quantities = { path = "%s", default-features = false }' % REPO,
+             'serde = { version = "1", optional = true }', 'serde_json = { version = "1.0", optional = true }', '', '[features]', 'default = []',
+             'std = ["quantities/std"]', 'fpdec = ["quantities/fpdec"]', 'serde = ["quantities/serde", "dep:serde", "dep:serde_json"]']
     for f in FEATURES:
         lines.append('%s = ["quantities/%s"]' % (f, f))
     lines += ['', '[profile.dev]', 'opt-level = 0', 'debug = 0', 'incremental = false', '', '[lints.rust]', 'unexpected_cfgs = "allow"', 'unused = "allow"']
@@ -343,6 +376,13 @@ def main(tier, seed, nproc, t0):
         for l in lines:
             tags.setdefault(l.split("|", 1)[0], []).append(l)
         present = [t for t in tags if t in FEATURES]
+        if cfg["serde"]:
+            sp = sorted(t[:-6] for t in tags if t.endswith("+serde"))
+            if sp != sorted(cfg["features"]):
+                viol("serde_exposure", "serialisation segments %s, enabled quantities %s" % (sp, sorted(cfg["features"])))
+            for t in tags:
+                if t.endswith("+serde") and any("error " in l for l in tags[t]):
+                    viol("serde_roundtrip", "serialisation of %s fails: %s" % (t[:-6], [l for l in tags[t] if "error " in l][:1]), t)
         if sorted(present) != sorted(cfg["features"]):
             viol("exposure", "expected segments %s, observed %s" % (sorted(cfg["features"]), sorted(present)))
         for t in list(tags):
